@@ -65,6 +65,8 @@ class View:
         return None
 
     def next_dump(self, i):
+        if self.kind[i] == "call" and self.call[i]["probe"]:
+            return None     # a probe runs on a copy of the state and is discarded: no later dump shows its effect
         for j in range(i + 1, len(self.ops)):
             if self.ops[j][0].startswith("restore"):
                 return None
